@@ -68,7 +68,8 @@ def match_known(prop, failure, findings=None):
     if findings is None:
         findings = load_known_findings()
     for f in findings:
-        if f.get('status') != 'open' or f.get('property') != prop:
+        # a finding recorded for property P also explains the same clause P.x failing inside another property's families
+        if f.get('status') != 'open' or f.get('property') not in (prop, failure.get('clause', '').split('.')[0]):
             continue
         if f.get('clause') not in (None, failure.get('clause')):
             continue
